@@ -2,10 +2,10 @@
 
 Decision-table enumeration: all 32 combinations of the report-request flags
 (reception, forwarding, delivery, deletion, status time) x report-to
-{dtn:none, a node, a node with a clockless subject} x 10 processing outcomes
+{dtn:none, a node, a node with a clockless subject} x 12 processing outcomes
 (deliver, forward, forward with fragmentation, delete by route, no matching
 route, three kinds of security failure, forward without transmit route,
-duplicate).  Every administrative record the real
+route MTU below the headers, first fragment only, duplicate).  Every administrative record the real
 agent hands to the convergence layer is decoded by the independent decoder and
 compared with a reference report generator.'''
 import itertools
@@ -34,12 +34,17 @@ OUTCOMES = {
     'security-failure-bcb-undecodable': ('dtn://node/secure', {'receive', 'delete'}),
     'forward-without-tx-route': ('dtn://orphan/app', {'receive', 'delete'}),
     'duplicate': ('dtn://node/app', set()),
+    # the transmit chain fails (route MTU smaller than the headers): nothing leaves the node
+    'forward-mtu-too-small': ('dtn://fartiny/app', {'receive', 'delete'}),
+    # only the first of two fragments of a bundle for a local endpoint has arrived: nothing is delivered
+    'fragment-incomplete': ('dtn://node/app', {'receive'}),
 }
 
 
 def world_for(outcome):
     rx = [('^dtn://node/.*', 'deliver'), ('^dtn://drop/.*', 'delete'), ('^dtn://.*', 'forward')]
-    tx = [('^dtn://far/.*', 'dtn://next/', None), ('^dtn://farfrag/.*', 'dtn://next/', 120), ('^dtn://rpt/.*', 'dtn://next/', None)]
+    tx = [('^dtn://far/.*', 'dtn://next/', None), ('^dtn://farfrag/.*', 'dtn://next/', 120), ('^dtn://fartiny/.*', 'dtn://next/', 60),
+          ('^dtn://rpt/.*', 'dtn://next/', None)]
     return BpWorld(dict(node_id=NODE, rx_routes=rx, tx_routes=tx))
 
 
@@ -54,6 +59,11 @@ def bundle_for(outcome, flags, report_to, seq=1, subject='clock'):
         # a source without a clock: creation time zero, told apart by the sequence number, with an age block
         pri.update(ts=(0, 7 + seq))
         blocks.insert(0, dict(type=B.T_AGE, num=3, flags=0, crc_type=0, data=B.enc_age(5000)))
+    if outcome == 'forward-mtu-too-small':
+        blocks[-1]['data'] = bytes(range(100))
+    if outcome == 'fragment-incomplete':
+        pri.update(flags=flags | B.FLAG_IS_FRAGMENT, frag_offset=0, total_adu=40)
+        blocks[-1]['data'] = bytes(range(20))
     if outcome == 'security-failure-bcb-context':
         asb = dict(targets=[1], context=99, flags=0, source='dtn://src/', params=[], results=[[(1, b'xx')]])
         blocks.insert(0, dict(type=B.T_BCB, num=2, flags=0, crc_type=0, data=B.enc_asb(asb)))
@@ -206,12 +216,12 @@ def scenarios(tier):
 
 ASSUMPTIONS = [
     'an absent report-to endpoint is encoded as dtn:none (RFC 9171 has no other way to omit it)',
-    'the ten outcomes are produced by routing tables / a BIB or BCB with an unknown security context / an undecodable BCB / a route MTU of 120 octets',
+    'the twelve outcomes are produced by routing tables / a BIB or BCB with an unknown security context / an undecodable BCB / a route MTU of 120 octets',
     'subjects: a bundle with a creation time, and one from a clockless source (creation time 0, sequence number, age block)',
     'a report is required for deliver / forward / delete-by-route when a requested action occurred (the title says "exactly when requested"); for the other outcomes only reports that are emitted are judged',
 ]
 
-RULE = ('decision table of 32 flag combinations x (no report-to, report-to, report-to with a clockless subject) x 10 outcomes enumerated completely on a fresh real '
+RULE = ('decision table of 32 flag combinations x (no report-to, report-to, report-to with a clockless subject) x 12 outcomes enumerated completely on a fresh real '
         'agent each; every administrative record reaching the convergence layer is decoded independently and compared '
         'with the reference report; non-trivial = a report was emitted')
 
